@@ -751,21 +751,21 @@ impl Monitor for C09 {
 
     fn plan(&self, tier: Tier) -> Plan {
         let mut p = Plan::new(
-            tier.pick(40_000, 1_500_000),
+            tier.pick(20_000, 1_500_000),
             "cases = (output bytes built from line classes {text, blank, whitespace-only, leading/trailing blanks, [n], `$ x`, `> x`, every documented suffix and near misses, backtick runs and fences, `#`, NUL/ESC/C0/C1/DEL, invalid UTF-8, backslashes next to control bytes, CR, CRLF, format characters}, with/without final newline; exit code; format md|cram; escaper ascii|unicode; mode create|update|convert with partially right old expectations); non-trivial = the output has >= 1 line of a hostile class and the round trip was carried out; distinct = hash of (sorted line classes, format, escaper, mode, code = 0?)",
         );
-        p.floor_nontrivial = tier.pick(1_000, 5_000);
+        p.floor_nontrivial = tier.pick(500, 5_000);
         p.floor_buckets = vec![
-            ("roundtrip:md".into(), tier.pick(2_000, 80_000)),
-            ("roundtrip:cram".into(), tier.pick(2_000, 80_000)),
-            ("mode:create".into(), tier.pick(2_000, 80_000)),
-            ("mode:update".into(), tier.pick(1_000, 40_000)),
-            ("mode:convert".into(), tier.pick(500, 20_000)),
-            ("escaper:ascii".into(), tier.pick(2_000, 80_000)),
-            ("escaper:unicode".into(), tier.pick(2_000, 80_000)),
-            ("original:malformed-output".into(), tier.pick(2_000, 80_000)),
-            ("original:invalid-exit-code".into(), tier.pick(500, 20_000)),
-            ("kept-original-expectation".into(), tier.pick(300, 10_000)),
+            ("roundtrip:md".into(), tier.pick(1000, 80_000)),
+            ("roundtrip:cram".into(), tier.pick(1000, 80_000)),
+            ("mode:create".into(), tier.pick(1000, 80_000)),
+            ("mode:update".into(), tier.pick(500, 40_000)),
+            ("mode:convert".into(), tier.pick(250, 20_000)),
+            ("escaper:ascii".into(), tier.pick(1000, 80_000)),
+            ("escaper:unicode".into(), tier.pick(1000, 80_000)),
+            ("original:malformed-output".into(), tier.pick(1000, 80_000)),
+            ("original:invalid-exit-code".into(), tier.pick(250, 20_000)),
+            ("kept-original-expectation".into(), tier.pick(150, 10_000)),
         ];
         p.assumptions = vec![
             "in-process part only: `scrut create` / `scrut update` end to end are not driven here".into(),
